@@ -71,6 +71,38 @@ type Task struct {
 	lastTag string
 	kids    []kidCount
 	daemon  bool // harness helper that may outlive main without counting as a leak
+	quiet   int  // > 0: inside Observe: no decision point after unlocks (the harness is looking, not acting)
+}
+
+// Observe runs f - a harness observation that goes through the system's own locks (an accessor reading
+// counters under the server's mutex, a snapshot of a table) - without the post-unlock decision points: what f
+// reads and what the caller reads right after it then belong to one instant. Waiting for a lock that somebody
+// else holds is unaffected.
+//
+// Quiet is Observe for a whole function body: defer simrt.Quiet()().
+//
+//go:norace
+func Quiet() func() {
+	s := cur.Load()
+	if s == nil {
+		return func() {}
+	}
+	t := s.selfOrAnon()
+	t.quiet++
+	return func() { t.quiet-- }
+}
+
+//go:norace
+func Observe(f func()) {
+	s := cur.Load()
+	if s == nil {
+		f()
+		return
+	}
+	t := s.selfOrAnon()
+	t.quiet++
+	defer func() { t.quiet-- }()
+	f()
 }
 
 type kidCount struct {
